@@ -197,6 +197,10 @@ def executions(tier, seed):
                         ('half-received', [], codec.enc_segment(7, b'abc', codec.SEG_START, [codec.ext_total_length(9)])),
                         ('half-message', [], codec.enc_segment(8, b'abcdef', codec.SEG_START,
                                                                [codec.ext_total_length(6)])[:-3])]
+            if 0 < ka < idle:
+                # the idle timer cannot start the termination here (the endpoint's own KEEPALIVEs are traffic):
+                # the user does, and the endpoint - still sending KEEPALIVEs - closes after the idle time
+                variants = [(n, sc + [(500 + 300 * j, 'term', only, 0)], pre) for (j, (n, sc, pre)) in enumerate(variants)]
             for (vname, script, prelude) in (variants if (i % 2 == 0 or tier == 'thorough') else variants[:2]):
                 traces.append(run_timed(cfg if only == 'A' else other, cfg if only == 'P' else other, script, horizon,
                                         seed=seed, only=only, prelude=prelude))
